@@ -1,6 +1,8 @@
 INIT TraceInit
 NEXT TraceNext
-CONSTANT CheckLines = FALSE
+CONSTANTS
+  CheckLines = FALSE
+  Pinned = FALSE
 CONSTRAINT Accepted
 POSTCONDITION Post
 CHECK_DEADLOCK FALSE
